@@ -99,7 +99,7 @@ end field
 
 /-- `Dt_b > 0` on the domain of the formulas (`f·T0 > 1` for `absacce`, where
 `Dt_b = b!!·2^{b/2}·(e^u − Σ_{k ≤ b/2} u^k / k!)` with `u = ln(f·T0)` is a Taylor remainder of
-`exp`; `f·T0 > 0` for `pvelo`). -/
+`exp`; `f·T0 > 0`, `≠ 1` for `pvelo`). -/
 theorem test_damage_positive (resp : Resp) (Q f T0 am g2m df4 df8 df12 : ℝ)
     (h : InDomain resp f T0) :
     0 < (psdRow resp Q f T0 am g2m df4 df8 df12).dt4 ∧
@@ -142,7 +142,7 @@ theorem test_variance_reproduces (Q f T0 am g2m df4 df8 df12 : ℝ)
 `var_test` had been computed, so the returned tables satisfy
 `di_test · var_test ^ (b/2) = 2 ^ (b/2) · di_sig`, not the documented relation. -/
 theorem test_variance_pvelo_factor (Q f T0 am g2m df4 df8 df12 : ℝ)
-    (h : 0 < f * T0) (h4 : 0 ≤ df4) (h8 : 0 ≤ df8) (h12 : 0 ≤ df12) :
+    (h : InDomain .pvelo f T0) (h4 : 0 ≤ df4) (h8 : 0 ≤ df8) (h12 : 0 ≤ df12) :
     let p := psdRow .pvelo Q f T0 am g2m df4 df8 df12
     p.dto4 * p.v4 ^ 2 = 4 * df4 ∧ p.dto8 * p.v8 ^ 4 = 16 * df8 ∧ p.dto12 * p.v12 ^ 6 = 64 * df12 := by
   intro p
@@ -154,7 +154,7 @@ theorem test_variance_pvelo_factor (Q f T0 am g2m df4 df8 df12 : ℝ)
 
 /-- hence for `pvelo` the documented relation fails whenever the signal has any damage (F25) -/
 theorem test_variance_pvelo_counterexample (Q f T0 am g2m df4 df8 df12 : ℝ)
-    (h : 0 < f * T0) (h4 : 0 < df4) (h8 : 0 ≤ df8) (h12 : 0 ≤ df12) :
+    (h : InDomain .pvelo f T0) (h4 : 0 < df4) (h8 : 0 ≤ df8) (h12 : 0 ≤ df12) :
     (psdRow .pvelo Q f T0 am g2m df4 df8 df12).dto4 * (psdRow .pvelo Q f T0 am g2m df4 df8 df12).v4 ^ 2
       ≠ df4 := by
   have := (test_variance_pvelo_factor Q f T0 am g2m df4 df8 df12 h h4.le h8 h12).1
@@ -224,7 +224,7 @@ noncomputable def scaleTab (c : ℝ) (t : TableOut ℝ) : TableOut ℝ :=
 unchanged — `cycle_table_scaling` below) **scales every PSD output (`G1, G2, G4, G8, G12`,
 `var_test`, `G2max`) by `c²`, the peak amplitudes and the amplitude bins by `c`, the damage
 indicators by `c ^ b`, and leaves `count`, `bincount`, `di_test` unchanged.** -/
-theorem psd_quadratic_scaling (resp : Resp) (c Q f T0 : ℝ) (hc : 0 < c) (nbins : Nat)
+theorem psd_quadratic_scaling (resp : Resp) (c Q f T0 : ℝ) (hc : 0 < c) (hQ : 0 < Q) (nbins : Nat)
     (cycles : List (ℝ × ℝ)) (hdom : InDomain resp f T0)
     (ha : ∀ d ∈ cycles, 0 ≤ d.1) (hn : ∀ d ∈ cycles, 0 ≤ d.2) :
     fdeTable resp Q f T0 nbins (scaleCycles c cycles)
@@ -256,7 +256,7 @@ noncomputable def scaleFreq (c : ℝ) (o : FreqOut ℝ) : FreqOut ℝ :=
 response (equivalently the input signal: `lfilter` is linear) by `c > 0` multiplies `srs`, `amp`
 (peakamp) and `binamps` by `c`, `var`, `var_test` and all five PSDs by `c²`, `di_sig` by `c ^ b`,
 and leaves `count`, `bincount`, `di_test` unchanged. -/
-theorem psd_quadratic_scaling_signal (resp : Resp) (c Q f T0 tol : ℝ) (hc : 0 < c) (nbins : Nat)
+theorem psd_quadratic_scaling_signal (resp : Resp) (c Q f T0 tol : ℝ) (hc : 0 < c) (hQ : 0 < Q) (nbins : Nat)
     (y : List ℝ) (hdom : InDomain resp f T0) :
     fdeFreq resp Q f T0 nbins tol (y.map (c * ·))
       = (fdeFreq resp Q f T0 nbins tol y).map (scaleFreq c) := by
@@ -277,7 +277,7 @@ theorem psd_quadratic_scaling_signal (resp : Resp) (c Q f T0 tol : ℝ) (hc : 0 
             intro d hd
             rcases (hspec d hd).2 with e | e <;> rw [e] <;> norm_num
           simp only [Option.map_some]
-          rw [psd_quadratic_scaling resp c Q f T0 hc nbins cyc hdom ha hn]
+          rw [psd_quadratic_scaling resp c Q f T0 hc hQ nbins cyc hdom ha hn]
           cases fdeTable resp Q f T0 nbins cyc with
           | none => rfl
           | some t => simp [scaleFreq]
